@@ -66,6 +66,52 @@ def readme():
     return rows
 
 
+def design_section(rows):
+    """Rewrite section 11 of DESIGN.md from the seed table."""
+    p = os.path.join(VERIF, "DESIGN.md")
+    s = open(p).read()
+    head = "## 11. Detection evidence"
+    i = s.index(head)
+    per = {}
+    for name, prop, _summary, _needs, caught, _missed in rows:
+        d = per.setdefault(prop, {"n": 0, "caught": 0, "names": []})
+        d["n"] += 1
+        d["caught"] += 1 if caught != "-" else 0
+        if caught == "-":
+            d["names"].append(name)
+    total = sum(d["n"] for d in per.values())
+    tc = sum(d["caught"] for d in per.values())
+    out = [head, "",
+           f"`seeded/` holds {total} deliberate property-breaking changes, each confirmed by `tools/seed_eval.py` on a scratch",
+           "copy of `/repo` (patch applies; the repository's own suite still reports 164 passed; the author's",
+           "demonstration fails with the patch and passes without it). `agent-*` (2 per property) and `agent3-*`",
+           "(3 per property) were written by independent sub-agents that were given only the text of one property and",
+           "a scratch worktree - nothing from `/verif`; `regression-*` are the reverse patches of the `fix:` commits.",
+           f"With the checks as committed, {tc} of {total} are reported (VIOLATION, exit 1) by the quick tier of the check of",
+           "the property they were written against; `seeded/README.md` lists, per seed, the change, what it needs to",
+           "manifest and the signatures that report it.",
+           "",
+           "The seeds arrived in three waves and the checks were strengthened after each; what each miss taught:",
+           "",
+           "| wave | missed at first | what was added |",
+           "|---|---|---|",
+           "| 1 | C03 sub-tree lookup by string prefix; C06 directory id of another algorithm expanded; C04 index-level push drops missing objects; C05 process-wide memo of verified objects, directory token keyed by basename; C07 mtime truncated to seconds; C09 unloadable directory not reported when the workspace has it | sibling names sharing a string prefix and bogus prefixes (C03); other-algorithm directory ids (C06); `collect`+`push`/`fetch` part (C04); cache losing an object after it was verified, same-named files in sub-directories (C05); tampering 1 µs away from the recorded mtime (C07); lazy targets whose directory object is missing (C09) |",
+           "| 2 | C11 stale index not cleared for a different directory; C14 short-read sources / non-termination; C16 check-then-insert on the state db; C19 unreadable ancestor silently replaced by an empty one; C20 same object mutated in place and stored again | index + vanish + second-request histories (C11); short-read sources and a per-case watchdog in the harness (C14); SQL statement boundaries as scheduling points (C16); ancestor faults in the public merge (C19); `restore` op on the SQLite index (C20) |",
+           "| 3 | C01/C02 names zipped with hashes in another order (partially warm state, large files), racy upload staging; C02 backslash names, `_create_dirs` prefix skip; C03 stale trie after overwrite; C04 verify + corrupt shared file; C05 sub-second directory token; C06 twin `<digest>`/`<digest>.dir`, read-only test on the wrong store; C07 inode dropped from the token; C09 kind change without hashes, file-less intermediate directories; C10 single-file target; C12 partially stale index with an orphan directory, prefix skip in the local existence query; C14 integer ratio at the 30 % edge; C15 protect-before-compare and state-before-verify under a verifying transfer; C16 pool results paired by submission order; C17 file-less intermediate directories, storage existence index; C18 storage prefix inside a directory entry, registration order; C19/C03 component-wise sort; C20 metadata digest overriding the hash | the corresponding alphabets / scenarios (see the *As built* notes in section 4) |",
+           "",
+           "Two of the sub-agents' remarks about the *unchanged* library led to repairs (section 9): the `hash_file` TOCTOU",
+           "(found when a wave-2 seed made me inject writes inside library calls) and the dry-run removal of legacy",
+           "`.unpacked` directories.",
+           "",
+           "| property | seeds | reported by its check | not reported |",
+           "|---|---|---|---|"]
+    for prop in sorted(per):
+        d = per[prop]
+        out.append(f"| {prop} | {d['n']} | {d['caught']} | {', '.join(d['names']) or '-'} |")
+    out.append("")
+    open(p, "w").write(s[:i] + "\n".join(out) + "\n")
+
+
 def main():
     args = sys.argv[1:]
     only = args[args.index("--only") + 1] if "--only" in args else None
@@ -76,6 +122,7 @@ def main():
             for name, out in ex.map(evaluate, names):
                 print("\n".join(l[:200] for l in out[:6]), flush=True)
     rows = readme()
+    design_section(rows)
     miss = [r for r in rows if r[4] == "-"]
     print(f"{len(rows)} seeds, {len(rows) - len(miss)} caught by their own property's check")
     for r in miss:
